@@ -159,9 +159,14 @@ func runOne(h hostile) (r childResult, stuck bool) {
 		return r, false
 	}
 	timeout := time.Duration(h.TimeoutMs) * time.Millisecond
-	call := func(name string) (class, text string, ok bool) {
+	call := func(name string, background bool) (class, text string, ok bool) {
 		var err error
 		esc, hung := guarded(func() {
+			if background {
+				// a context that can never be cancelled (ctx.Done() == nil): the same guarantees hold
+				err = c.RunContext(context.Background())
+				return
+			}
 			ctx, cancel := context.WithTimeout(context.Background(), timeout)
 			defer cancel()
 			err = c.RunContext(ctx)
@@ -177,7 +182,7 @@ func runOne(h hostile) (r childResult, stuck bool) {
 		return classOf(err), errText(err), true
 	}
 	var ok bool
-	if r.Class1, r.Err1, ok = call("RunContext"); !ok {
+	if r.Class1, r.Err1, ok = call("RunContext", false); !ok {
 		return r, r.Hang != ""
 	}
 	// the object must stay usable: Get / GetAll / IsDefined / Set / RunContext
@@ -222,7 +227,9 @@ func runOne(h hostile) (r childResult, stuck bool) {
 		r.Escaped = "Get/Set after RunContext: " + esc
 		return r, false
 	}
-	if r.Class2, r.Err2, ok = call("second RunContext"); !ok {
+	// the second run uses context.Background() when the first one finished by itself in good time
+	bg := h.Det && r.Class1 != "ctx" && time.Since(t0) < timeout/2
+	if r.Class2, r.Err2, ok = call("second RunContext", bg); !ok {
 		return r, r.Hang != ""
 	}
 	if h.Det && r.Misbehave == "" && r.Class1 != "ctx" && r.Class2 != "ctx" && (r.Class1 != r.Class2 || r.Err1 != r.Err2) {
